@@ -19,3 +19,39 @@ void verif_dump_polyfill(FILE *f) {
     fprintf(f, "]\n\n");
     fprintf(f, "def MAX_SIZE_CELL_THRESHOLD : Int := %d\n\n", MAX_SIZE_CELL_THRESHOLD);
 }
+
+// C15: the primitive predicates that iterStepPolygonCompact (polyfill.c:435-546) combines at the
+// target resolution, computed with the library's own functions for one cell
+H3Error verif_polyprims(const GeoPolygon *polygon, H3Index cell, int out[8]) {
+    for (int i = 0; i < 8; i++) out[i] = 0;
+    BBox *bboxes = calloc((size_t)polygon->numHoles + 1, sizeof(BBox));
+    bboxesFromGeoPolygon(polygon, bboxes);
+    int cellRes = H3_GET_RESOLUTION(cell);
+    LatLng center;
+    H3Error e = H3_EXPORT(cellToLatLng)(cell, &center);
+    if (e) { free(bboxes); return e; }
+    out[0] = pointInsidePolygon(polygon, bboxes, &center);
+    LatLng firstVertex = polygon->geoloop.verts[0];
+    if (bboxContains(&VALID_RANGE_BBOX, &firstVertex)) {
+        H3Index polygonCell;
+        if (!H3_EXPORT(latLngToCell)(&firstVertex, cellRes, &polygonCell)) out[1] = (polygonCell == cell);
+    }
+    CellBoundary boundary;
+    e = H3_EXPORT(cellToBoundary)(cell, &boundary);
+    if (e) { free(bboxes); return e; }
+    BBox bbox;
+    e = cellToBBox(cell, &bbox, false);
+    if (e) { free(bboxes); return e; }
+    out[2] = cellBoundaryInsidePolygon(polygon, bboxes, &boundary, &bbox);
+    out[3] = cellBoundaryCrossesPolygon(polygon, bboxes, &boundary, &bbox);
+    BBox cb;
+    e = cellToBBox(cell, &cb, true);
+    if (e) { free(bboxes); return e; }
+    out[4] = bboxOverlapsBBox(&bboxes[0], &cb);
+    CellBoundary bb = bboxToCellBoundary(&cb);
+    out[5] = bboxContainsBBox(&cb, &bboxes[0]);
+    out[6] = pointInsidePolygon(polygon, bboxes, &bb.verts[0]);
+    out[7] = cellBoundaryCrossesPolygon(polygon, bboxes, &bb, &cb);
+    free(bboxes);
+    return E_SUCCESS;
+}
